@@ -88,6 +88,12 @@ fn main() {
                 f => families::worker(f, &args[3], p(4), p(5), p(6), p(7)),
             }
         }
+        Some("run-trace") => {
+            families::run_trace(&args[2], &args[3], args.get(4).map(|s| s == "1").unwrap_or(false));
+        }
+        Some("shrink-trace") => {
+            families::shrink_trace(&args[2], &args[3], &args[4], &args[5], &args[6]);
+        }
         Some("replay") => {
             let r = match check::replay_file(&args[2]) {
                 Ok(r) => r,
